@@ -50,7 +50,7 @@ class ContentAnalysis(BufferAnalysis):
                 self.names.append(self.dvar(fr, v))
                 self.names.append(self.evar(fr, v))
         self.names.append('D:' + CUR)
-        self.names.extend(['E:' + CUR, 'D:@state', 'D:@lastfn', 'E:@lastfn', 'NX', 'NO', 'KS', 'Wm', 'Wq'])
+        self.names.extend(['E:' + CUR, 'D:@state', 'D:@lastfn', 'E:@lastfn', 'NX', 'NO', 'KS', 'Wm', 'Wq', 'N0c', 'N0l', 'N0h', 'N1c', 'N1l', 'N1h', 'TT'])
         self.kvars = {}
         for fr in self.frames.values():
             for b, L in fr.bufenv.items():
@@ -209,6 +209,8 @@ class ContentAnalysis(BufferAnalysis):
         z.assign('D:' + CUR, '0', 0)
         for K in self.kvars.values():
             z.assign(K, '0', -1)
+        fl.pop('ttop', None)
+        z.forget('TT')
         if not user and fl.get('lastvar') and fl.get('lastvar') != CUR:
             # H3 for a well-formed chart: the target of an initial transition is a proper descendant of the state that takes it
             base = fl['lastvar']
@@ -224,7 +226,7 @@ class ContentAnalysis(BufferAnalysis):
                 z.forget('KS')
             if not user:
                 for k in list(fl):
-                    if k.startswith('s:') or k.startswith('ss:') or k == 'w':
+                    if k.startswith('s:') or k.startswith('ss:') or k in ('w', 'n0', 'n1', 'ncur', 'nrep', 'ttop'):
                         del fl[k]
             fl.pop('s:' + CUR, None)
             z.forget('E:' + CUR)
@@ -254,7 +256,10 @@ class ContentAnalysis(BufferAnalysis):
                     if S is not None:
                         z.le(S[0], 'NX', -S[1])
                         z.le('NX', S[0], S[1])
+                    if fr.func is not self.entry and fl.get('ks') == '1' and fl.get('w') != '1':
+                        self.check_cover(fl, z, c, fr)
                     z.assign('NX', 'NX', 1)
+                    self.nrel(fl, z)
                 if self.track_source and sigs == {'USER'}:
                     # the event is offered to the current state first, then to each enclosing state in turn: the n-th offer goes to depth n of the active chain
                     S = hv[1]
@@ -477,6 +482,88 @@ class ContentAnalysis(BufferAnalysis):
             return st.map(f)
         return BufferAnalysis.assign1(self, st, tgt, val, fr)
 
+    # ------------------------------------------------------------ minimality of the common ancestor
+    # records (c, lo, hi), two of them: the state of the active chain at depth c is known to differ from the target's ancestors at depths lo..hi
+    def note_ne(self, fl, z, S, T):
+        (sx, sk), (tx, tk) = S, T
+
+        def eq(a, ak, b, bk):          # a+ak == b+bk
+            return z.entails(a, b, bk - ak) and z.entails(b, a, ak - bk)
+        for r in ('N0', 'N1'):
+            if fl.get(r.lower()) != '1' or not eq(sx, sk, r + 'c', 0):
+                continue
+            lo, hi = r + 'l', r + 'h'
+            if z.entails(lo, tx, tk) and z.entails(tx, hi, -tk):            # lo <= d <= hi
+                return
+            # (sound for any d in the stated range: the interval never claims a depth that was not compared; exact when d is adjacent)
+            if z.entails(tx, hi, 1 - tk) and z.entails(lo, tx, tk):         # lo <= d <= hi + 1
+                z.assign(hi, tx, tk)
+                return
+            if z.entails(lo, tx, tk + 1) and z.entails(tx, hi, -tk):        # lo - 1 <= d <= hi
+                z.assign(lo, tx, tk)
+                return
+            z.assign(lo, tx, tk)
+            z.assign(hi, tx, tk)
+            fl['nrep'] = r         # (kept apart from the states in which this record still has its old extent)
+            return
+        # another state of the active chain: the older record makes room
+        if fl.get('n0') == '1':
+            fl['n1'] = '1'
+            for v in ('c', 'l', 'h'):
+                z.assign('N1' + v, 'N0' + v, 0)
+        fl['n0'] = '1'
+        fl.pop('nrep', None)
+        z.assign('N0c', sx, sk)
+        z.assign('N0l', tx, tk)
+        z.assign('N0h', tx, tk)
+        self.nrel(fl, z)
+
+    def nrel(self, fl, z):
+        """partition key: how the depth of the newer record relates to the exit count (states that differ in it are kept apart, so "the record of the
+        state exited last" and "the record of the candidate being compared now" never blur in a join)"""
+        if fl.get('n0') != '1':
+            fl.pop('ncur', None)
+            return
+        for k in (-2, -1, 0, 1, 2):
+            if z.entails('N0c', 'NX', k) and z.entails('NX', 'N0c', -k):
+                fl['ncur'] = str(k)
+                return
+        fl['ncur'] = '?'
+
+    def check_cover(self, fl, z, node, fr):
+        """a state of the active chain is exited although no common-ancestor test has passed yet: it is given up as a candidate, so it must have been compared
+        with *every* ancestor of the target (record lo == 0, hi == frontier K) and the ancestor path must be complete (it ends at the outermost state)"""
+        def eq(a, ak, b, bk):
+            return z.entails(a, b, bk - ak) and z.entails(b, a, ak - bk)
+        ok = False
+        for K in self.kvars.values():
+            for r in ('N0', 'N1'):
+                if fl.get(r.lower()) == '1' and eq(r + 'c', 0, 'NX', 0) and eq(r + 'l', 0, '0', 0) and eq(r + 'h', 0, K, 0) and fl.get('ttop') == '1' and eq('TT', 0, K, 0):
+                    ok = True
+        self.rec('O6-cover', fr, node, 'OK' if ok else 'FAIL(exited without having been compared with every ancestor of the target up to the outermost state)', '%s %s' % (fl, z.show()))
+
+    def check_min(self, fl, z, node, fr):
+        """a common-ancestor test has just passed for (Wm, Wq): it is the innermost common state iff the states one level below it on both sides differ
+        (in a tree, A(C,m) == A(T,q) and A(C,m-1) != A(T,q-1) exclude every lower match); nothing is below when the common state is the source itself
+        (Wm == KS) or the target itself (Wq == 0)"""
+        def eq(a, ak, b, bk):
+            return z.entails(a, b, bk - ak) and z.entails(b, a, ak - bk)
+        ok = False
+        why = ''
+        if fl.get('ks') == '1' and eq('Wm', 0, 'KS', 0):
+            ok = True           # the source encloses the target (or is it: self transition)
+        elif eq('Wq', 0, '0', 0):
+            ok = True           # the target encloses the source
+        else:
+            for r in ('N0', 'N1'):
+                if fl.get(r.lower()) != '1' or not eq(r + 'c', 1, 'Wm', 0):       # c == Wm-1
+                    continue
+                if z.entails(r + 'l', 'Wq', -1) and z.entails('Wq', r + 'h', 1):        # lo <= Wq-1 <= hi
+                    ok = True
+                if eq(r + 'l', 0, '0', 0) and z.entails('Wq', r + 'h', 1):              # lo == 0 and Wq-1 <= hi: either Wq == 0 (nothing below) or 0 <= Wq-1 <= hi
+                    ok = True
+        self.rec('O6-min', fr, node, 'OK' if ok else 'FAIL(the states just below the match were not compared)', '%s %s' % (fl, z.show()))
+
     # ------------------------------------------------------------ guards: learning from answers and from identity tests
     def guard(self, st, test, pol, fr):
         st = super().guard(st, test, pol, fr)
@@ -509,6 +596,14 @@ class ContentAnalysis(BufferAnalysis):
             # H1/H2: an answer of SUPER - or, to EXIT/ENTRY, anything but HANDLED - means the handler named its parent: the cursor is parent(asked)
             equal = (op in (ast.Eq, ast.Is) and pol) or (op in (ast.NotEq, ast.IsNot) and not pol)
             differs = (op in (ast.Eq, ast.Is) and not pol) or (op in (ast.NotEq, ast.IsNot) and pol)
+            if sc == 'SUPER' and differs:
+                def f(fl, z):
+                    if is_answer(fl) and fl.get('lastsig') in ('SUPER', 'EMPTY') and fl.get('o:@lastfn') == 'T':
+                        # H1: only the outermost state declines to name a parent - the target's ancestor chain ends at the state that was asked
+                        fl['ttop'] = '1'
+                        z.assign('TT', 'D:@lastfn', 0)
+                    return (fl, z)
+                st = st.map(f)
             if (sc == 'SUPER' and equal) or (sc == 'HANDLED' and differs):
                 def f(fl, z, sc=sc):
                     if not is_answer(fl):
@@ -546,10 +641,20 @@ class ContentAnalysis(BufferAnalysis):
                                 z.assign('Wm', sx, sk)
                                 z.assign('Wq', tx, tk)
                                 fl['w'] = '1'
+                                self.check_min(fl, z, test, fr)
                                 # the source is the target (self transition): UML exits and re-enters it - the common state is the parent of both
                                 if fl.get('ks') == '1' and z.entails('Wm', 'KS', 0) and z.entails('KS', 'Wm', 0) and z.entails('Wq', '0', 0) and z.entails('0', 'Wq', 0):
                                     z.assign('Wm', 'Wm', 1)
                                     z.assign('Wq', 'Wq', 1)
+                        return (fl, z)
+                    st = st.map(f)
+                elif self.track_source:
+                    def f(fl, z):
+                        a = self.hval(l, fr, fl, z)
+                        b = self.hval(r, fr, fl, z)
+                        pair = (a[1], b[0]) if (a[1] is not None and b[0] is not None) else ((b[1], a[0]) if (b[1] is not None and a[0] is not None) else None)
+                        if pair is not None:
+                            self.note_ne(fl, z, pair[0], pair[1])
                         return (fl, z)
                     st = st.map(f)
         return st
